@@ -226,8 +226,10 @@ def _cp_builders():
     return out
 
 
-def _cp_run(si, via, dt):
-    """returns None or (what, detail): the caller's array is bit-identical after scaling and a second call gives the same result"""
+def _cp_run(si, via, dt, on_scale_error=None):
+    """returns None or (what, detail): the caller's array is bit-identical after scaling and a second call gives the same result.
+    Building the scale objects happens outside any handler: if a constructor's signature differs from what this harness assumes,
+    that is a harness error (inconclusive), not a finding."""
     import nptdms.scaling as sc
     import warnings
     name, build, vals = _cp_builders()[si]
@@ -241,10 +243,16 @@ def _cp_run(si, via, dt):
         ms = sc.MultiScaling([sc.NoOpScaling(RAW), build(0), sc.AddScaling(1, 0)])     # ... and the array is needed again afterwards
     with warnings.catch_warnings():
         warnings.simplefilter('ignore')
-        out1 = np.array(ms.scale(Raw(arr)), copy=True)
+        try:
+            out1 = np.array(ms.scale(Raw(arr)), copy=True)
+        except Exception as e:
+            return 'concrete-purity-exception', dict(scale=name, exc=type(e).__name__, msg=str(e)[:100])
         if arr.tobytes() != keep:
             return 'scale-modifies-raw-data', dict(scale=name, before=vals, after=[float(v) for v in arr])
-        out2 = np.array(ms.scale(Raw(arr)), copy=True)
+        try:
+            out2 = np.array(ms.scale(Raw(arr)), copy=True)
+        except Exception as e:
+            return 'concrete-purity-exception', dict(scale=name, exc=type(e).__name__, msg=str(e)[:100], call='second')
     if arr.tobytes() != keep:
         return 'scale-modifies-raw-data', dict(scale=name, before=vals, after=[float(v) for v in arr])
     if out1.tobytes() != out2.tobytes():
@@ -260,12 +268,7 @@ def _concrete_purity(ctx):
     via = ctx.choice('via', 3)
     dt = ctx.choice('dtype', 2)
     ctx.obligations += 1
-    try:
-        r = _cp_run(si, via, dt)
-    except (PathAbort, Inconclusive):
-        raise
-    except Exception as e:
-        ctx.fail('concrete-purity-exception', scale=_cp_builders()[si][0], exc=type(e).__name__, msg=str(e)[:100])
+    r = _cp_run(si, via, dt)
     if r is not None:
         ctx.fail(r[0], **r[1])
     ctx.discharged += 1
@@ -635,10 +638,7 @@ def _replay_graph(art):
     if task['kind'] in ('lookup', 'daqmx', 'table'):
         return _replay_kernel(art)
     if task['kind'] == 'concrete-purity':
-        try:
-            r = _cp_run(int(inp.get('scale', 0)), int(inp.get('via', 0)), int(inp.get('dtype', 0)))
-        except Exception as e:
-            return dict(sig=signature(dict(task=task, what='concrete-purity-exception')), exception=repr(e)[:200])
+        r = _cp_run(int(inp.get('scale', 0)), int(inp.get('via', 0)), int(inp.get('dtype', 0)))
         if r is None:
             return None
         return dict(sig=signature(dict(task=task, what=r[0])), **r[1])
